@@ -395,7 +395,10 @@ class BinaryExpression(TypedExpression):
             return chained
 
         left_str = self.left.rebuild(indent=indent, inline=True)
-        right_str = self.right.rebuild(indent=indent, inline=True)
+
+        def inline_right() -> str:
+            """Render the right operand once, and only where it is used."""
+            return self.right.rebuild(indent=indent, inline=True)
 
         operator_newline = self.operator_gap_lines > 0
         operator_str = self.operator.rebuild(indent=indent)
@@ -413,7 +416,7 @@ class BinaryExpression(TypedExpression):
                     inline,
                 )
             return self.add_trivia(
-                f"{left_str}{op_sep}{operator_str} {right_str}", indent, inline
+                f"{left_str}{op_sep}{operator_str} {inline_right()}", indent, inline
             )
 
         if self.right_gap_lines:
@@ -428,7 +431,9 @@ class BinaryExpression(TypedExpression):
         if not operator_str.startswith("\n"):
             # Ensure exactly one space before the operator (avoid double spaces)
             operator_str = " " + operator_str.lstrip()
-        return self.add_trivia(f"{left_str}{operator_str} {right_str}", indent, inline)
+        return self.add_trivia(
+            f"{left_str}{operator_str} {inline_right()}", indent, inline
+        )
 
 
 __all__ = ["BinaryExpression"]
